@@ -67,6 +67,9 @@ type Bucket struct {
 	Keys       map[string]*Key
 	Versioning string // "" (never) | Enabled | Suspended
 	HadUpload  bool
+	// Dirty: an operation on this bucket was hit by an injected disk fault;
+	// whether leftovers keep the bucket from being "empty" is indeterminate.
+	Dirty bool
 }
 
 // Upload is a multipart upload.
@@ -93,7 +96,7 @@ func New() *Store { return &Store{Buckets: map[string]*Bucket{}} }
 func (s *Store) Clone() *Store {
 	c := &Store{Buckets: map[string]*Bucket{}, seq: s.seq}
 	for n, b := range s.Buckets {
-		nb := &Bucket{Name: b.Name, Keys: map[string]*Key{}, Versioning: b.Versioning, HadUpload: b.HadUpload}
+		nb := &Bucket{Name: b.Name, Keys: map[string]*Key{}, Versioning: b.Versioning, HadUpload: b.HadUpload, Dirty: b.Dirty}
 		for kn, k := range b.Keys {
 			nk := &Key{Indet: k.Indet}
 			for _, v := range k.Vers {
